@@ -38,6 +38,11 @@ fn main() {
         std::env::set_var("RUST_LIB_BACKTRACE", "0");
     }
     driver::install_panic_hook();
+    // The sampler's own pool is the simulator's stand-in. Anything else in the repository that hands work
+    // to rayon lands in rayon's global pool, which is not under the scheduler; it is kept small (3 threads)
+    // so that such work is split into uneven, stealable pieces - the situation of a chain running on the
+    // sampler's (num_cores + 1)-thread pool - and shows up as a difference between runs (C10).
+    let _ = rayon::ThreadPoolBuilder::new().num_threads(3).build_global();
     let args: Vec<String> = std::env::args().collect();
     if args.len() < 2 {
         harness_error("usage: nutsim check <Cnn> [--tier quick|thorough] [--seed N] | replay <file> | selfcheck");
